@@ -90,13 +90,6 @@ def cmp : Rx → Rx → Ordering
 
 def lt (a b : Rx) : Bool := cmp a b == .lt
 
-/-- Smart concatenation: `∅·b = a·∅ = ∅`, `ε·b = b`, `a·ε = a`. -/
-def mkCat (a b : Rx) : Rx :=
-  if a.isEmpty || b.isEmpty then .empty
-  else if a.isEps then b
-  else if b.isEps then a
-  else .cat a b
-
 /-- Insert `x` into a right-nested, sorted, duplicate-free union (ACI normalisation). -/
 def altInsert (x : Rx) : Rx → Rx
   | .empty => x
@@ -115,9 +108,48 @@ def mkAlt : Rx → Rx → Rx
   | .alt x y, b => altInsert x (mkAlt y b)
   | a, b => altInsert a b
 
-/-- Smart intersection: `∅ ∩ b = a ∩ ∅ = ∅`. -/
-def mkAnd (a b : Rx) : Rx :=
-  if a.isEmpty || b.isEmpty then .empty else .and a b
+/-- Smart concatenation: `∅·b = a·∅ = ∅`, `ε·b = b`, `a·ε = a`, right association, and
+distribution over a union on the left (so that a derivative is a union of concatenation chains,
+as with Antimirov's partial derivatives). -/
+def mkCat : Rx → Rx → Rx
+  | .empty, _ => .empty
+  | .eps, b => b
+  | .alt x y, b => mkAlt (mkCat x b) (mkCat y b)
+  | .cat x y, b => mkCat x (mkCat y b)
+  | a, b => if b.isEmpty then .empty else if b.isEps then a else .cat a b
+
+/-- `RawAutomaton::universal`: all unmarked words. -/
+def univ : Rx := .compl .empty
+
+/-- Right part of the smart intersection (left argument is not a union). -/
+def mkAndR (a : Rx) : Rx → Rx
+  | .empty => .empty
+  | .alt x y => mkAlt (mkAndR a x) (mkAndR a y)
+  | b => if a = univ then b else if b = univ then a else .and a b
+
+/-- Smart intersection: `∅ ∩ b = a ∩ ∅ = ∅`, `univ ∩ b = b`, `a ∩ univ = a`, distribution over
+unions on both sides. -/
+def mkAnd : Rx → Rx → Rx
+  | .empty, _ => .empty
+  | .alt x y, b => mkAlt (mkAnd x b) (mkAnd y b)
+  | a, b => mkAndR a b
+
+/-- Smart star: `∅* = ε* = ε`, `(a*)* = a*`. -/
+def mkStar : Rx → Rx
+  | .empty => .eps
+  | .eps => .eps
+  | .star a => .star a
+  | a => .star a
+
+/-- Bottom-up normalisation with the smart constructors (same language, see `L_norm`). -/
+def norm : Rx → Rx
+  | .single S => if S.all (fun p => p.2 == 0) then .empty else .single S
+  | .cat a b => mkCat (norm a) (norm b)
+  | .alt a b => mkAlt (norm a) (norm b)
+  | .and a b => mkAnd (norm a) (norm b)
+  | .star a => mkStar (norm a)
+  | .compl a => .compl (norm a)
+  | r => r
 
 /-- Brzozowski derivative with respect to the marked letter `x`.
 
@@ -168,9 +200,6 @@ def sameTests (r : Rx) (x y : Letter) : Bool :=
   (singles r).all (fun S => lmem S x == lmem S y)
 
 def plus (r : Rx) : Rx := .cat r (.star r)
-
-/-- `RawAutomaton::universal`: all unmarked words. -/
-def univ : Rx := .compl .empty
 
 def size : Rx → Nat
   | .cat a b => size a + size b + 1
